@@ -199,7 +199,7 @@ bound = None
 if a.tier == "exhaustive":
     bound = exhaustive()
 else:
-    n_hist = 1500 if a.tier == "quick" else 8000
+    n_hist = 1500 if a.tier == "quick" else 6000
     for i in range(n_hist):
         r = rng.random()
         if r < 0.15:
